@@ -16,6 +16,13 @@
 (***************************************************************************)
 EXTENDS TxCore, Json
 
+\* Properties whose action-level checks are enforced in this run.  Each check of the
+\* framework judges the same traces with Props = {its own property}: a trace is then
+\* rejected only for a reason that concerns that property, and validation continues
+\* past deviations that belong to another property's check.
+CONSTANT Props
+Chk(p, cond) == (p \notin Props) \/ cond
+
 VARIABLES l,        \* next trace line
           begin     \* projection at the begin of the running write transaction (RollbackExact)
 
@@ -35,7 +42,7 @@ WmOf(st) == [map |-> PairMap(st.wal), pgs |-> RegSet(st.walpg)]
 HdrOf(st) == [slot |-> st.slot, txid |-> st.txid, root |-> st.root, fl |-> st.hfl, wal |-> st.hwal,
               dEnd |-> st.hde, mEnd |-> st.hme, mTot |-> st.hmt, max |-> st.hmax]
 LkOf(st) == [sh |-> st.sh, pe |-> st.pe, res |-> st.res]
-StatsOf(st) == [data |-> st.sd, meta |-> st.sm, metaUsed |-> st.smu]
+StatsOf(st) == [data |-> st.sd, meta |-> st.sm, metaUsed |-> st.smu, fsize |-> st.fsz, maxb |-> st.maxb, ovf |-> st.ovf]
 
 BindFile(st) == al' = AlOf(st) /\ wm' = WmOf(st) /\ hdr' = HdrOf(st) /\ lk' = LkOf(st) /\ stats' = StatsOf(st)
 HasSt(e) == "st" \in DOMAIN e
@@ -97,18 +104,18 @@ EndR(e) ==
 \* read through a read-only transaction: exactly the snapshot taken at its begin (C02)
 ReadR(e) ==
   /\ e.r \in DOMAIN rds
-  /\ IF e.id \in DOMAIN rds[e.r].pages
-       THEN e.err = "" /\ MatchPage(e.q, rds[e.r].pages[e.id])
-       ELSE e.err # ""
+  /\ Chk("C03", IF e.id \in DOMAIN rds[e.r].pages
+                   THEN e.err = "" /\ MatchPage(e.q, rds[e.r].pages[e.id])
+                   ELSE e.err # "")
   /\ UNCHANGED <<coreVars, begin>>
 
 \* read inside the write transaction: own writes, else committed (C03)
 ReadW(e) ==
   /\ tx # NoTx
-  /\ IF e.id \in TxLive
-       THEN \/ e.err = "" /\ MatchPage(e.q, TxView(e.id))
-            \/ e.err # "" /\ e.id \in tx.new /\ e.id \notin DOMAIN tx.w    \* fresh page without contents
-       ELSE e.err # ""
+  /\ Chk("C03", IF e.id \in TxLive
+                   THEN \/ e.err = "" /\ MatchPage(e.q, TxView(e.id))
+                        \/ e.err # "" /\ e.id \in tx.new /\ e.id \notin DOMAIN tx.w    \* fresh page without contents
+                   ELSE e.err # "")
   /\ UNCHANGED <<coreVars, begin>>
 
 \* C04: ids handed out are unused
@@ -126,8 +133,8 @@ Alloc(e) ==
   /\ tx # NoTx
   /\ IF e.err = ""
        THEN LET ids == SeqSet(e.ids) IN
-            /\ Len(e.ids) = e.n /\ Cardinality(ids) = e.n
-            /\ AllocOK(ids)
+            /\ Len(e.ids) = e.n
+            /\ Chk("C04", Cardinality(ids) = e.n /\ AllocOK(ids))
             /\ tx' = [tx EXCEPT !.new = @ \cup ids, !.freed = @ \ ids]
        ELSE tx' = tx
   /\ BindFile(e.st) /\ UNCHANGED <<cm, rds, begin>> /\ KeepDisk /\ KeepGhost
@@ -166,10 +173,10 @@ CommitBegin(e) ==
 \* hook commit/switched: under the exclusive lock the new state becomes the visible one
 CommitSwitched(e) ==
   /\ tx # NoTx /\ inflight # None
-  /\ DOMAIN rds = {}                              \* C02/C09: no reader is alive
+  /\ Chk("C02", DOMAIN rds = {} /\ e.st.pe /\ e.st.sh = 0)   \* no reader is alive, none can begin
   /\ cm' = inflight /\ cd' = inflight
   /\ tx' = [tx EXCEPT !.w = EmptyFn, !.new = {}, !.freed = {}]   \* its effects are part of cm now
-  /\ BindFile(e.st) /\ e.st.pe /\ e.st.sh = 0
+  /\ BindFile(e.st)
   /\ UNCHANGED <<rds, begin, inflight, maybe>> /\ KeepDisk
 
 CommitOK(e) ==   \* Commit returned nil
@@ -183,7 +190,7 @@ Abort(e) ==
   /\ tx # NoTx
   /\ tx' = NoTx /\ begin' = None
   /\ BindFile(e.st)
-  /\ ProjOf(e.st) = begin                          \* RollbackExact: complete projection as at Begin
+  /\ Chk("C07", ProjOf(e.st) = begin)              \* RollbackExact: complete projection as at Begin
   /\ inflight' = None
   /\ maybe' = IF inflight # None /\ e.hdrIssued THEN maybe \cup {inflight} ELSE maybe
   /\ UNCHANGED <<cm, rds, cd>> /\ KeepDisk
@@ -200,7 +207,7 @@ Sync(e) ==
 
 \* observation: the real Open on a crash image of this point recovered this state
 Recovered(e) ==
-  /\ \E E \in Allowed :
+  /\ ("C01" \notin Props /\ "C08" \notin Props) \/ \E E \in Allowed :
         /\ e.root = E.root
         /\ LET got == PagesOf(e.pages) IN
            /\ DOMAIN got = DOMAIN E.pages
@@ -212,7 +219,7 @@ Recovered(e) ==
 Reopen(e) ==
   /\ tx = NoTx /\ DOMAIN rds = {}
   /\ BindFile(e.st)
-  /\ ProjOf(e.st) = Proj
+  /\ Chk("C10", ProjOf(e.st) = Proj)
   /\ KeepLogical /\ UNCHANGED begin /\ KeepDisk /\ KeepGhost
 
 \* observation without effect on the model (markers)
@@ -248,7 +255,7 @@ Al0 == [dFree |-> {}, mFree |-> {}, dEnd |-> 2, mEnd |-> 0, mTot |-> 0, flp |-> 
 Wm0 == [map |-> EmptyFn, pgs |-> {}]
 Hdr0 == [slot |-> 0, txid |-> 0, root |-> 0, fl |-> 0, wal |-> 0, dEnd |-> 2, mEnd |-> 0, mTot |-> 0, max |-> 0]
 Lk0 == [sh |-> 0, pe |-> FALSE, res |-> FALSE]
-Stats0 == [data |-> 0, meta |-> 0, metaUsed |-> 0]
+Stats0 == [data |-> 0, meta |-> 0, metaUsed |-> 0, fsize |-> 0, maxb |-> 0, ovf |-> FALSE]
 Dur0 == [p \in {0, 1} |-> [k |-> "H", ok |-> TRUE, txid |-> 1 - p, root |-> 0, fl |-> 0, wal |-> 0,
                            dEnd |-> 2, mEnd |-> 0, mTot |-> 0, max |-> 0]]
 
